@@ -47,7 +47,7 @@ theorem series_eq {B : Nat} (hx : CountExact V B) (htr : LeTrans V) (d : Decl V)
           (bs.map (fun _ => Val.zero)))
         = bs.map (fun b => Val.ofNat ((observations acts).countP (fun o => Val.le o b.1))) := by
       simpa [cellsOf, hx.zero_eq, List.map_map, Function.comp_def] using hc
-    simp only [childSamples, seriesSamples, hk, h1, h2, hc', bucketCount]
+    simp only [childSamples, seriesSamples, hk, h1, h2, hc', bucketCount, sumExposed_eq]
     congr 1
     congr 1
     · rw [zip_map_self]
